@@ -3,6 +3,7 @@
 package main
 
 import (
+	"math"
 	"crypto/sha256"
 	"encoding/hex"
 	"fmt"
@@ -113,6 +114,11 @@ func baseHistories(thorough bool) []history {
 		{Name: "terminating-revisions-manual", Finalizers: true, Steps: []step{
 			{Source: v1, Limit: lim(2), Activation: "Manual", Pull: "IfNotPresent"},
 			{Activate: "current"}, {Source: v2}, {DeleteRev: "oldest"}, {Activation: "Automatic"}, {Source: v3}, {Release: true}, {DeleteRev: "current"}, {Source: v1}, {Release: true},
+		}},
+		// a limit so large that "limit+1" does not fit an int: nothing may ever be collected
+		{Name: "limit-max-int64", Steps: []step{
+			{Source: v1, Limit: lim(math.MaxInt64), Activation: "Automatic", Pull: "IfNotPresent"},
+			{Source: v2}, {Source: v3}, {Source: v1}, {Source: v4},
 		}},
 		{Name: "rollback-before-collection", Steps: []step{
 			{Source: v1, Limit: lim(1), Activation: "Automatic", Pull: "IfNotPresent"},
